@@ -16,8 +16,8 @@ import (
 // Liveness under eventual synchrony (property C15), on REAL replicas in VIRTUAL time: after an adversarial prefix (the random
 // schedule of randomRun: loss, delay, duplication, skipped ticks, Byzantine strategies, root-chain notifications) the network heals:
 // every message is delivered within 1-50 ms, the Byzantine validator falls silent, and every replica's phase timer fires after the
-// duration the implementation itself prescribes for that phase and round (timeout x (2 round + 1); the rest of the round after an
-// interrupt). The replicas start the healed period wherever the prefix left them: different rounds, phases, locks, stored
+// duration the implementation itself computes for that phase and round (BFT.WaitTime; after an interrupt the remaining round time
+// it stored). The replicas start the healed period wherever the prefix left them: different rounds, phases, locks, stored
 // proposals. The harness reports how many rounds it took until every correct replica committed.
 
 type event struct {
@@ -76,6 +76,7 @@ func heal(r *sim.Rng, n *bftsim.Net, correct map[int]bool, byzIdx int, maxRounds
 	var r0 uint64
 	for _, i := range live {
 		b := n.Reps[i].B
+		b.Config.CommitTimeoutMS = lib.DefaultConfig().CommitTimeoutMS // (bftsim shortens it for the step-driven runs)
 		res.StartRounds = append(res.StartRounds, b.Round)
 		if b.Round > r0 {
 			r0 = b.Round
@@ -172,18 +173,20 @@ func heal(r *sim.Rng, n *bftsim.Net, correct map[int]bool, byzIdx int, maxRounds
 		}
 		n.Step(i)
 		flushBag()
+		// the time until this replica's next timer: what the IMPLEMENTATION computes (BFT.WaitTime with the replica's own
+		// configuration; after a round interrupt the remaining round time it stored in RoundInterruptTimeoutMS)
 		var wait int64
 		switch {
 		case rep.Committed != nil:
 			continue
 		case rep.B.Phase == bft.Pacemaker && ph != bft.Pacemaker: // the phase ended in a round interrupt: wait for the end of the round
-			wait = roundLeft(ph, rd)
+			wait = rep.B.WaitTime(bft.RoundInterrupt, rd).Milliseconds()
 		case ph == bft.Pacemaker:
-			wait = 0
+			wait = rep.B.WaitTime(bft.Pacemaker, rd).Milliseconds()
 		case ph == bft.CommitProcess:
-			wait = 60000 * int64(2*rd+1) // no timer is set: the replica waits for a reset (here: a long time-out as in WaitTime)
+			wait = rep.B.WaitTime(bft.CommitProcess, rd).Milliseconds() // no timer is set by the code: the replica waits for a reset
 		default:
-			wait = phaseMS[ph] * int64(2*rd+1)
+			wait = rep.B.WaitTime(ph, rd).Milliseconds()
 			if wait == 0 {
 				wait = 1
 			}
